@@ -168,9 +168,20 @@ func workerExplore(t *testing.T, job *Job, known *KnownFindings, out *WorkerOut,
 		if time.Since(start).Seconds() > job.BudgetS {
 			break
 		}
-		if i%64 == 63 && runtime.NumGoroutine() > 20000 {
-			out.Recycle = true
-			break
+		if i%64 == 63 {
+			// goroutines abandoned by finished runs (and what they keep alive) are never collected: the worker
+			// process is replaced before they add up - by count, and by what the heap has grown to (16 workers
+			// share the machine's memory; a worker that the kernel kills leaves no result)
+			recycle := runtime.NumGoroutine() > 20000
+			if !recycle && i%512 == 511 {
+				var ms runtime.MemStats
+				runtime.ReadMemStats(&ms)
+				recycle = ms.HeapAlloc > 1500<<20
+			}
+			if recycle {
+				out.Recycle = true
+				break
+			}
 		}
 		fam := job.Families[i%len(job.Families)]
 		// The n-th run of a family by this worker uses seed base + worker + n*workers: over all workers every
